@@ -190,6 +190,34 @@ Theorem C15_final_adjacent_failure_refuses :
             head_after (c s) r = c (h_height new - 1).
 Proof. exact honest_final_adjacent_failure. Qed.
 
+(** THE HEAD-REQUEST PATH. A candidate also enters bifurcation from Syncer.Head()/Start():
+    networkHead, when the head request came back with the candidate and a soft *VerifyError
+    ([head_soft]). It is then treated exactly like a head delivered by the subscriber (the run
+    IS [incoming], so every theorem above applies), the candidate is the answer and the new
+    subjective head only if it was accepted, and on refusal the old subjective head is the answer. *)
+Theorem C15_head_request_path :
+  forall (now drift : Z) (tv : hdr -> hdr -> tvres) (get : nat -> N -> option hdr)
+         (new : hdr) (fuel : nat) (subj : hdr),
+  let '(r, ans) := head_soft now drift tv get fuel subj new in
+  r = incoming now drift tv get fuel subj new /\
+  (b_verdict r = Accept -> ans = new /\ head_after subj r = new) /\
+  (b_verdict r <> Accept -> ans = subj).
+Proof. exact head_soft_spec. Qed.
+
+(** A REFUSED CANDIDATE NEVER BECOMES THE HEAD (getter answering with the asked heights): it is
+    not the answer of the head request, it is not among the headers given to setLocalHead
+    (so it is neither stored nor a sync target), and Syncer.Head() afterwards is not it. *)
+Theorem C15_refused_candidate_never_head :
+  forall (now drift : Z) (tv : hdr -> hdr -> tvres) (get : nat -> N -> option hdr)
+         (new : hdr) (fuel : nat) (subj : hdr),
+  h_height new < two64 ->
+  (forall i h x, h_height subj <= h <= h_height new -> get i h = Some x -> h_height x = h) ->
+  subj <> new ->
+  let '(r, ans) := head_soft now drift tv get fuel subj new in
+  b_verdict r <> Accept ->
+  ans <> new /\ ~ In new (b_promoted r) /\ head_after subj r <> new.
+Proof. exact head_soft_refused_never_head. Qed.
+
 (** ** non-vacuity *)
 
 (** [ex_c] = an honest hash-linked chain, [ex_tv tr] = a type that trusts non-adjacent headers up
@@ -264,3 +292,5 @@ Print Assumptions C15_soft_only_bifurcates.
 Print Assumptions C15_complete.
 Print Assumptions C15_refuses_forged.
 Print Assumptions C15_final_adjacent_failure_refuses.
+Print Assumptions C15_head_request_path.
+Print Assumptions C15_refused_candidate_never_head.
